@@ -83,6 +83,14 @@ P.update({
             'weights, positions the Cartesian product in the documented order; expect/expect_var/pof/support/mean_value/pof_value equal explicit sums over the weighted '
             'points with uninterpreted integrands; center_mass/range/var setters achieve their value.', 'DESIGN.md#c19', ''),
 })
+P.update({
+    'C05': (True, 'model_checking',
+            'The real Step/_Solve/Solve/Terminated/SetEvaluationLimits code is executed with only `_Step` replaced by a counting stub, so the counters, both limits '
+            '(incl. None), the termination verdict per generation and the exit flag are solver variables: no iteration begins when a stop condition holds, one is '
+            'performed otherwise, the message names a true condition, Solve returns with generations <= limit and the last iteration begun below the evaluation '
+            'limit, new=True adds the current counters, a second Solve does nothing; the real NM/Powell/DE/DE2 steps and the wrappers are run under small limits.',
+            'DESIGN.md#c05', 'asynchronous SIGINT delivery is not modelled (the handler is driven directly).'),
+})
 
 NOT_YET = 'check not built yet in this round (planned: DESIGN.md section 4)'
 
